@@ -710,7 +710,13 @@ func c15MaliciousHost(ev *vlib.Evidence, pc *poolChild, r *rand.Rand, n int, non
 	}
 	json.Unmarshal(data, &call2)
 	var reply string
-	switch r.Intn(7) {
+	switch r.Intn(10) {
+	case 7:
+		reply = fmt.Sprintf(`{"jsonrpc":"2.0","id":%s,"error":null}`, call2.ID)
+	case 8:
+		reply = fmt.Sprintf(`{"id":%s,"error":{}}`, call2.ID)
+	case 9:
+		reply = fmt.Sprintf(`{"jsonrpc":"2.0","id":%s,"result":null,"error":{"code":-1}}`, call2.ID)
 	case 0:
 		reply = fmt.Sprintf(`{"jsonrpc":"2.0","id":%s}`, call2.ID) // neither result nor error
 	case 1:
